@@ -240,6 +240,49 @@ PENDING = {
 }
 
 
+
+# what the searches cover beyond the texts above (added as the seeded-change rounds and the fix reverts asked for it)
+ADDED = {
+    "C01": "Also in the search: HLconvert on an element that has a descriptor and no data yet, before its first byte.",
+    "C02": "Also in the search: datasets stored low byte first, the largest reference number in use and elements stored "
+           "under references the library hands out (mixed workload).",
+    "C05": "Also in the search: compressing an element that holds plain data already, then reading or rewriting it through "
+           "the returned id.",
+    "C07": "Also in the search: field names that are prefixes of one another, names of 124..128 characters, fields defined "
+           "in descending name order.",
+    "C08": "Also in the search: names that are prefixes of one another, inserting handles of another file (refused), "
+           "Vgetnext against the member list, names longer than 65535 characters (refused, nothing changes).",
+    "C09": "Also in the search: little-endian number types, sub-sampled writes, sub-sampled region reads of legacy RLE images, "
+           "image names that are prefixes of one another.",
+    "C10": "Also in the search: 8-bit character attributes, dimension names that are prefixes or word permutations of one "
+           "another, datasets sharing a dimension created in either order, refused SDsetdimname (size conflict) and "
+           "SDsetdimscale (wrong count) that must change nothing.",
+    "C11": "Also in the search: bursts of 14..52 annotations on one object, ANreadann with a buffer shorter than the text, a "
+           "second ANcreate before the first annotation is written (refused, leaves no trace), the DFAN calls on a file "
+           "that does not exist yet.",
+    "C12": "Also in the search: a duplicate onto a name that exists (refused, nothing changes), every reference of a tag up "
+           "to 8k+7 in use except 8k, and a reference handed out and not used yet (asked for twice in a row, or again "
+           "after reference 65535 was taken) is not handed out again.",
+    "C13": "Also in the search: 3..12 further entry points per interface tried with stale, wrong-kind and never-issued "
+           "ids; opening a missing file and a file that is no HDF file; 257..264 files open at once; ids that share a "
+           "chain of the id table released in any order; a call that fails half way releases what it attached.",
+    "C14": "69 mutators incl. whole-chunk writes, Hsetlength/Happendable on a read id, SDstart/Hopen on a file that is no "
+           "HDF file; a second client holding the file open for writing during phase B (SD calls); files whose version "
+           "element the application removed; in phase C a reader half way through an element while the file is opened "
+           "for writing goes on and gets the element's bytes.",
+    "C16": "The first 18 programs of every batch are directed (one per storage layout incl. external files shared by two "
+           "datasets, dataset ids left open at SDend, a reader open while the stream is swapped for a writable one); "
+           "sticky faults start at reads as well as writes.",
+    "C17": "Also: the write that starts the flush must come from the descriptor sync (HTPsync), whatever caused it; the "
+           "workload uses the largest reference number and stores elements under references the library hands out.",
+    "C20": "Also in the search: a vgroup name/class that is refused leaves the old one; a field name in a list behaves as "
+           "the same name alone; seeks and lengths around 2^31-1 inside one element; unlimited datasets with records of "
+           "8..33 million values (starts of records written).",
+}
+for _k, _v in ADDED.items():
+    CHECKS[_k]["text"] += " " + _v
+
+
 def main():
     hooks_commits = []
     try:
